@@ -1271,7 +1271,9 @@ fn layout_fpg_mirror(c: &Case, exp: &[Exp]) -> Result<(), String> {
 /// the stack-pointer deltas of the chain, `saves` from the STACK CFI record covering the frame's lookup
 /// address, the saved frame pointer from the chain, `tail` from the length of the stack — and the model
 /// evaluates `gcfiWords` / `gcfiChain` on them (MdModel/Walk/LayoutGen.lean) together with EVERY
-/// hypothesis of `walk_layout_cfi_generated` (`hyp=1`): stack pointer, stack bytes and chain must be the
+/// hypothesis of `walk_layout_cfi_generated` (`hyp=1`) and, for worlds of one module, the record-level
+/// side condition of `walk_layout_cfi_generated_one_module` (`one=1`: records inside the module and pairwise
+/// disjoint, linear search instead of range tables): stack pointer, stack bytes and chain must be the
 /// generated ones
 fn layout_cfi_mirror(case: &str, c: &Case, exp: &[Exp]) -> Result<(), String> {
     let p = ptr_of(&c.arch);
@@ -1323,7 +1325,8 @@ fn layout_cfi_mirror(case: &str, c: &Case, exp: &[Exp]) -> Result<(), String> {
     }
     let req = format!("chain layout cfi {base} {s0} {tail} {} {}", if frames.is_empty() { "-".to_string() } else { frames.join(",") }, fields[4]);
     let want = format!(
-        "hyp=1 sp={sp} stack:{} exp:{}",
+        "hyp=1 one={} sp={sp} stack:{} exp:{}",
+        if c.mods.len() == 1 { "1" } else { "-" },
         hex(bytes),
         exp.iter().map(|e| format!("{},{},{}", e.ret, e.sp, e.fp.map(|x| x.to_string()).unwrap_or("-".into()))).collect::<Vec<_>>().join("|")
     );
@@ -1502,7 +1505,12 @@ impl Engine for Chain {
         // `preCfi_layout` / `walk_layout_cfi_generated` (C04Gen.lean), all hypotheses evaluated by the model
         if tech == "cfi" {
             match layout_cfi_mirror(case, &c, &exp) {
-                Ok(()) => res.tags.push(format!("layout-tied:cfi-{}", c.arch)),
+                Ok(()) => {
+                    res.tags.push(format!("layout-tied:cfi-{}", c.arch));
+                    if c.mods.len() == 1 {
+                        res.tags.push("cfi-side-from-records".into());
+                    }
+                }
                 Err(msg) => res.oracle.push(("layout-not-mirrored".into(), msg)),
             }
         }
